@@ -33,6 +33,11 @@ Script ==
     [] ScriptName = "same_ctx_key_removes" ->
          << <<"gen", 1, Up(1)>>, <<"gen", 1, Up(2)>>, <<"dlv", 2, 1>>, <<"dlv", 2, 2>>,
             <<"gen", 2, [c |-> "rmv", k |-> 1]>>, <<"gen", 2, [c |-> "rmv", k |-> 2]>> >>
+    \* the same with the removes issued in the opposite order: at a replica that has only the FIRST update, the remove of
+    \* the absent key becomes pending first and the remove of the present key then meets an existing pending entry
+    [] ScriptName = "same_ctx_key_removes_rev" ->
+         << <<"gen", 1, Up(1)>>, <<"gen", 1, Up(2)>>, <<"dlv", 2, 1>>, <<"dlv", 2, 2>>,
+            <<"gen", 2, [c |-> "rmv", k |-> 2]>>, <<"gen", 2, [c |-> "rmv", k |-> 1]>> >>
     \* the same actor updates a key twice around a concurrent remove that saw only the first update
     [] ScriptName = "update_rm_update" ->
          << <<"gen", 1, Up(1)>>, <<"dlv", 2, 1>>, <<"gen", 2, [c |-> "rm", k |-> 1]>>, <<"gen", 1, Up(1)>> >>
@@ -52,6 +57,13 @@ Script ==
             <<"gen", 2, [c |-> "rmv", k |-> 1]>>, <<"gen", 2, [c |-> "rmv", k |-> 2]>>,
             <<"gen", 1, Up(2)>>, <<"gen", 1, Up(1)>>, <<"dlv", 2, 5>>, <<"dlv", 2, 6>>,
             <<"gen", 2, [c |-> "rmv", k |-> 1]>> >>
+    \* replica 4 knows four actors and holds two pending key removes whose contexts, {A:2} -> {k2} and {A:2,B:1} -> {k1},
+    \* differ only in a dot it has seen; both wait for the same update (A:2), which replica 3 has not seen either
+    [] ScriptName = "nested_pending_four_actors" ->
+         << <<"gen", 1, Up(1)>>, <<"gen", 1, Up(2)>>, <<"dlv", 2, 1>>, <<"dlv", 2, 2>>,
+            <<"gen", 2, [c |-> "rm", k |-> 2]>>, <<"gen", 2, Up(1)>>, <<"gen", 2, [c |-> "rmv", k |-> 1]>>,
+            <<"gen", 3, Up(3)>>, <<"gen", 4, Up(3)>>,
+            <<"dlv", 4, 1>>, <<"dlv", 4, 3>>, <<"dlv", 4, 4>>, <<"dlv", 4, 5>>, <<"dlv", 4, 6>> >>
 ScriptInit == InitAfter(Script)
 
 \* JSON-friendly renderings: partial functions over Keys become total sequences of 0/1-element tuples
